@@ -123,6 +123,7 @@ TLCtorList(l, n) == G("list") /\ Act("TLCtorList", [l |-> l, nsarg |-> n])
 TLCtorTrees(ts, n) == G("list") /\ Act("TLCtorTrees", [ts |-> ts, nsarg |-> n])
 TLMigrate(l, n, b) == G("listns") /\ Act("TLMigrate", [l |-> l, n |-> n, unify |-> b])
 TLReconstruct(l, b) == G("listns") /\ Act("TLReconstruct", [l |-> l, unify |-> b])
+TLClearReconstruct(l, b) == G("listns") /\ Act("TLClearReconstruct", [l |-> l, unify |-> b])
 TLUpdate(l) == G("listns") /\ Act("TLUpdate", [l |-> l])
 TreeMigrate(t, n, b) == G("tree") /\ Act("TreeMigrate", [t |-> t, n |-> n, unify |-> b])
 TreeClone(t, n) == G("tree") /\ Act("TreeClone", [t |-> t, nsarg |-> n])
@@ -172,6 +173,7 @@ Next == \/ \E l \in LS2, t \in FreeT, s \in Strats : TLAppend(l, t, s)
         \/ \E ts \in TSeqs, n \in NsA : TLCtorTrees(ts, n)
         \/ \E l \in LS, n \in NsT, b \in BOOLEAN : TLMigrate(l, n, b)
         \/ \E l \in LS2, b \in Uni : TLReconstruct(l, b)
+        \/ \E l \in LS2, b \in BOOLEAN : TLClearReconstruct(l, b)
         \/ \E l \in LS2 : TLUpdate(l)
         \/ \E t \in FreeT, n \in W(NS, {1}), b \in BOOLEAN : TreeMigrate(t, n, b)
         \/ \E t \in CloneT, n \in NsA : TreeClone(t, n)
